@@ -64,8 +64,22 @@ class TimeProxy:
     def perf_counter(self):
         return self.now()
 
+    def time_ns(self):
+        return int(self.now() * 1e9)
+
+    def perf_counter_ns(self):
+        return int(self.now() * 1e9)
+
     def sleep(self, s):
         raise RuntimeError('real sleep inside the simulation')
+
+    def __getattr__(self, name):
+        # the rest of the module (formatting, struct_time, ...) untouched; every clock is above
+        import time as _time
+        if name in ('process_time', 'process_time_ns', 'thread_time', 'thread_time_ns', 'clock_gettime',
+                    'clock_gettime_ns'):
+            raise RuntimeError(f'time.{name}: a real clock inside the simulation')
+        return getattr(_time, name)
 
 
 class NullLogger:
